@@ -139,6 +139,9 @@ func (g *genC04) Block(w *World, b int) Block {
 		}
 	}
 	blk.Steps = g.net.Apply(rng, b, len(w.nodes), steps)
+	if len(w.nodes) == 1 && rng.Chance(1, 50) {
+		blk.Reimport = true // restart of the whole chain from its own exported genesis (plans, names, balances carry over)
+	}
 	return blk
 }
 
